@@ -58,10 +58,22 @@ def verify(sdir):
     return out
 
 
+def scratch_verif():
+    """a private copy of /verif (with the Lean build output) so that a detection run never touches the generated files,
+    evidence or replays of /verif itself"""
+    d = tempfile.mkdtemp(prefix="iopt-seed-verif-", dir="/tmp")
+    r = sh(["rsync", "-a", "--exclude", ".git", "--exclude", "replays", "--exclude", "seeded", V + "/", d + "/"])
+    if r.returncode != 0:
+        raise SystemExit(r.stdout)
+    return d
+
+
 def detect(sdir, tier, props):
     meta = json.load(open(os.path.join(sdir, "meta.json")))
     props = props or [meta["property"]]
     d = worktree()
+    V0 = V
+    VS = scratch_verif()
     res = {}
     try:
         r = sh(["git", "-C", d, "apply", os.path.abspath(os.path.join(sdir, "patch.diff"))])
@@ -70,7 +82,7 @@ def detect(sdir, tier, props):
         for p in props:
             t0 = time.time()
             env = dict(os.environ, IOPT_REPO=d, VERIF_TIER=tier, PYTHONDONTWRITEBYTECODE="1")
-            r = sh([PY, os.path.join(V, "harness/run_check.py"), "--property", p, "--tier", tier], cwd=V, env=env, timeout=7200)
+            r = sh([PY, os.path.join(VS, "harness/run_check.py"), "--property", p, "--tier", tier], cwd=VS, env=env, timeout=7200)
             lines = [l for l in r.stdout.split("\n") if l.startswith("VIOLATION") or l.startswith("[check]") or l.startswith("INFRA")]
             replay = None
             for l in lines:
@@ -88,8 +100,7 @@ def detect(sdir, tier, props):
             res[p] = {"exit": r.returncode, "lines": lines, "wall_s": round(time.time() - t0, 1), "detail": detail}
     finally:
         drop(d)
-        # regenerate anything the translator wrote from the mutated tree back from /repo
-        sh([PY, os.path.join(V, "harness/translate.py"), "NodeTable.lean", "ListenerSig.lean", "AllocSites.lean", "MethodSrc.lean", "EvolventSrc.lean", "StronginC3Src.lean"], cwd=V)
+        shutil.rmtree(VS, ignore_errors=True)
     return res
 
 
